@@ -26,7 +26,9 @@ META = {
                   "complete request is, its next step is enabled unless it waits in the queue with no free worker -- and that can last for ever: refutation theorems "
                   "carry the witnesses (nbThreads = 2, two truncated-frame clients, one good client: the running server is quiescent with the good request unserved; "
                   "one client that never finishes authentication blocks the pool's accept loop).",
-    "level_note": "A complete message that makes the server wait for its sender (a nested request never answered, a reply never read) is the model's NStall: it "
+    "level_note": "Not in the model, harness only: reuse of a departed client's descriptor number by a newcomer while the hook still runs (hookhold), a client on "
+                  "descriptor 0 (connect0), failure to start the worker for an accepted client (nospawn), two connections set up at once (twin), a class shown by two "
+                  "clients under one name (classref), clients that reset before accept (knock). A complete message that makes the server wait for its sender (a nested request never answered, a reply never read) is the model's NStall: it "
                   "blocks a reader exactly like an unfinished frame (generated: 'stall'; the never-read flavour is the same class and is not generated). Descriptor exhaustion "
                   "enters as the event EAcceptFail. Partial: threads, processes, fork, poll and the kernel's accept queue appear only through their effect on the bookkeeping; descriptor exhaustion is outside. "
                   "zlib and the request decoder are parameters of the model (theorems hold for all of them); the extracted instance is given the decoder as a finite "
@@ -35,7 +37,7 @@ META = {
     "technique": "Coq: non-interference and invariants over an event transition system quantified over all byte strings + refutation witnesses; regenerated control "
                  "skeletons and facts; differential correspondence with real servers under scripted hostile clients; implementation-level oracle on every good client's replies",
     "gen": ["server", "channel", "stream", "protocol", "libinit"],
-    "shapes": ["server.*", "channel.*", "stream.SocketStream.*", "stream.Stream.poll", "stream.compat.*", "stream.retry_errnos",
+    "shapes": ["server.*", "channel.*", "stream.SocketStream.*", "stream.Stream.poll", "stream.compat.*", "stream.lib.*", "stream.retry_errnos",
                "protocol.Connection.serve", "protocol.Connection.serve_all", "protocol.Connection.poll", "protocol.Connection._dispatch",
                "protocol.Connection._dispatch_request", "protocol.Connection._send", "protocol.Connection.close", "protocol.Connection._cleanup",
                "protocol.Connection.__init__", "protocol.Connection.sync_request", "protocol.Connection._netref_factory",
@@ -148,6 +150,29 @@ def gen_history(r, quick=True):
             if cfg["kind"] != "pool" and label in ("garbage-frame", "bad-zlib"):
                 g.alive[c]["served"] = False
             probe()
+        elif x < 0.305 and not g.closed and len(g.ever) < 13 and cfg["transport"] == "tcp":
+            c = g.next_cid
+            g.next_cid += 1
+            g.items.append(["knock", c])
+            g.ever.append(c)
+            probe()
+        elif x < 0.31 and good and not starved() and g.busy is None:
+            c = r.choice(good)
+            g.items.append(["classref", c])
+            g.alive[c]["served"] = False
+            bad[c] = False
+            probe()
+        elif x < 0.31 and good and g.busy is None and not g.closed and len(g.ever) < 13 and not starved():
+            # a good client leaves and the next one connects while the first one's disconnect hook is still running
+            c = r.choice(good)
+            d = g.next_cid
+            g.next_cid += 1
+            g.items.append(["hookhold", c, d, r.choice(["fin", "rst"])])
+            g.alive.pop(c)
+            g.ever.append(d)
+            g.alive[d] = {"ckind": "raw", "auth": S.AUTH_OK, "served": True, "blocked": False}
+            g.tables[d] = []
+            g.good_req(d)
         elif x < 0.32 and cfg["kind"] == "threaded" and cfg["cls"] and not g.closed and len(g.ever) < 13:
             # two clients connect at the same time
             a, b = g.next_cid, g.next_cid + 1
@@ -212,6 +237,35 @@ def witnesses():
                             [["connect", 1, "raw", 0], ["connect", 2, "raw", 0], ["req", 1, S.QROOT, None, 0], ["req", 1, S.QMAKE, [o, 0], 0],
                              ["req", 2, S.QSTR, [o, 1], 0], ["req", 2, S.QROOT, None, 0], ["req", 2, S.QSTR, [o, 1], 0], ["req", 2, S.QDEL, [o, 1], 0],
                              ["req", 2, S.QMAKE, [o2, 0], 0], ["req", 1, S.QSTR, [o2, 2 if not cls else 1], 0], ["req", 1, S.QBUMP, [o, 0], 0], ["req", 2, S.QBUMP, [o2, 0], 0]]))
+    # a client connects while a departed client's disconnect hook is still running (the departed one's descriptor number is free again)
+    for kind in ("pool", "threaded"):
+        for transport in ("tcp", "unix"):
+            for auth in (False, True):
+                base = {"kind": kind, "transport": transport, "auth": auth, "cls": True, "nw": 2, "batch": 10}
+                out.append((dict(base), [["connect", 1, "raw", 0], ["req", 1, S.QROOT, None, 0], ["hookhold", 1, 2], ["req", 2, S.QROOT, None, 0], ["req", 2, S.QBUMP, [2, 0], 0]]))
+                out.append((dict(base), [["connect", 1, "raw", 0], ["req", 1, S.QROOT, None, 0], ["hookhold", 1, 2, "rst"], ["req", 2, S.QROOT, None, 0], ["req", 2, S.QBUMP, [2, 0], 0]]))
+                out.append((dict(base), [["connect", 1, "raw", 0], ["connect", 2, "raw", 0], ["req", 2, S.QROOT, None, 0], ["hookhold", 2, 3], ["req", 3, S.QROOT, None, 0],
+                                         ["req", 1, S.QROOT, None, 0], ["hookhold", 3, 4], ["req", 4, S.QROOT, None, 0]]))
+            # a client whose server-side socket is descriptor 0
+            if transport == "tcp" and kind == "pool":
+              out.append(({"kind": kind, "transport": transport, "auth": False, "cls": True, "nw": 2, "batch": 10},
+                        [["connect0", 1], ["req", 1, S.QROOT, None, 0], ["req", 1, S.QBUMP, [1, 0], 0], ["leave", 1, "fin"], ["connect", 2, "raw", 0], ["req", 2, S.QROOT, None, 0]]))
+    # clients that connect and reset at once, then a good client
+    for kind in ("threaded", "pool"):
+        for auth in (False, True):
+            base = {"kind": kind, "transport": "tcp", "auth": auth, "cls": True, "nw": 2, "batch": 10}
+            out.append((dict(base), [["connect", 1, "raw", 0], ["req", 1, S.QROOT, None, 0], ["knock", 2], ["knock", 3], ["knock", 4], ["knock", 5],
+                                     ["req", 1, S.QBUMP, [1, 0], 0], ["connect", 6, "raw", 0], ["req", 6, S.QROOT, None, 0]]))
+    # two clients show the server a class of the same name and id: each must be asked about its own
+    for kind in ("threaded", "pool"):
+        for transport in ("tcp", "unix"):
+            base = {"kind": kind, "transport": transport, "auth": False, "cls": True, "nw": 2, "batch": 10}
+            out.append((dict(base), [["connect", 1, "raw", 0], ["classref", 1], ["connect", 2, "raw", 0], ["classref", 2], ["connect", 3, "raw", 0], ["req", 3, S.QROOT, None, 0]]))
+            out.append((dict(base), [["connect", 1, "raw", 0], ["classref", 1], ["leave", 1, "fin"], ["connect", 2, "raw", 0], ["classref", 2]]))
+    # the worker thread for a new client cannot be started (thread limit reached by idle connections)
+    for transport in ("tcp", "unix"):
+        out.append(({"kind": "threaded", "transport": transport, "auth": False, "cls": True, "nw": 2, "batch": 10},
+                    [["connect", 1, "raw", 0], ["req", 1, S.QROOT, None, 0], ["nospawn", 2], ["req", 1, S.QBUMP, [1, 0], 0], ["connect", 3, "raw", 0], ["req", 3, S.QROOT, None, 0]]))
     # two clients connecting at the same time: each connection must be created with its own endpoints / credentials
     for auth in (False, True):
         for transport in ("tcp", "unix"):
@@ -278,7 +332,7 @@ def nontrivial(cfg, items):
     """at least one hostile event and one well-behaved request (or call) after it"""
     hostile_at = None
     for j, it in enumerate(items):
-        if it[0] in ("send", "hostile", "kill", "stall", "emfile", "twin") or (it[0] == "connect" and cfg["auth"] and it[3] != S.AUTH_OK):
+        if it[0] in ("send", "hostile", "kill", "stall", "emfile", "twin", "hookhold", "connect0", "nospawn", "knock", "classref") or (it[0] == "connect" and cfg["auth"] and it[3] != S.AUTH_OK):
             hostile_at = j if hostile_at is None else hostile_at
         elif hostile_at is not None and it[0] in ("req", "call"):
             if cfg["kind"] == "forking" or S.well_behaved(cfg, items, j):
